@@ -178,6 +178,7 @@ impl SearchTimer {
 /// reading the wall clock, so the point at which a deadline falls is a chosen
 /// node count and every run is reproducible.
 #[cfg(flounder_verif)]
+#[allow(dead_code)]
 pub mod verif {
     use std::cell::Cell;
     use std::time::Duration;
